@@ -233,9 +233,11 @@ def build_rand(seed, p):
     RandBlock = _rand_block_class()
     with quiet():
         hw = py4hw.HWSystem()
-        ins = [hw.wire('i%d' % i, rng.randint(1, p.get('max_w', 8))) for i in range(p['n_in'])]
+        # the outer wires deliberately reuse the NAMES of the block's internal wires (t1, t2, .. / q0, ..): wires are
+        # distinguished by identity, not by name, as in any hierarchy that calls its nets 'a', 'r', 'q' at every level
+        ins = [hw.wire('t%d' % (i + 1), rng.randint(1, p.get('max_w', 8))) for i in range(p['n_in'])]
         # out widths are fixed after the fact by Buf (width-agnostic copy), so any width is legal
-        outs = [hw.wire('o%d' % j, rng.randint(1, p.get('max_w', 8))) for j in range(p['n_out'])]
+        outs = [hw.wire('q%d' % j, rng.randint(1, p.get('max_w', 8))) for j in range(p['n_out'])]
         obj = RandBlock(hw, 'dut', ins, outs, rng, p)
     return obj
 
